@@ -7,8 +7,44 @@ PROPS_MODULE = "Q1t.Props.C15"
 _hexeq = vlib.hexfloat_eq(1e-9)
 
 
+def _ops_eq(oa, ob):
+    """Sub-gate lists: names and qubit lists (in order) exactly; a parameter is shown by the implementation as the 4 decimals of
+    the gate's description and by the model as a bit pattern."""
+    ta, tb = oa.split(), ob.split()
+    if len(ta) != len(tb) or ta[:2] != tb[:2]:
+        return False
+    for x, y in zip(ta[2:], tb[2:]):
+        lx, _, bx = x.partition("@")
+        ly, _, by = y.partition("@")
+        if bx != by:
+            return False
+        nx, _, px = lx.partition("(")
+        ny, _, py = ly.partition("(")
+        if nx != ny:
+            return False
+        px = [t for t in px.rstrip(")").split(",") if t]
+        py = [t for t in py.rstrip(")").split(",") if t]
+        if len(px) != len(py):
+            return False
+        for d, h in zip(px, py):
+            try:
+                v, w = float(d), vlib.hex_to_float(h)
+            except ValueError:
+                return False
+            if v != v or w != w:
+                if not (v != v and w != w):
+                    return False
+            elif v in (float("inf"), float("-inf")) or w in (float("inf"), float("-inf")):
+                if v != w:
+                    return False
+            elif abs(v - w) > 5.0e-5 + 1e-9 + 1e-12 * abs(w):
+                return False
+    return True
+
+
 def eq(req, a, b):
-    """(A): error constructor and payload, width and name exactly; matrix entries as doubles within 1e-9 (NaN = NaN).
+    """(A): error constructor and payload, width and name exactly; the sub-gate list of the hook (names, qubit order exactly,
+    parameters to the 4 decimals a description shows); matrix entries as doubles within 1e-9 (NaN = NaN).
     Where the gate model has no matrix (a sub-gate placed on a repeated qubit: `mat panic` on the model side) the matrix
     observation is not compared (the placement is outside the model's domain; from_string itself does not look at it).
     A model panic carries its site, the implementation's does not."""
@@ -16,10 +52,14 @@ def eq(req, a, b):
         return True
     if a.startswith("panic") and b.startswith("panic"):
         return True
-    ha, _, ma = a.partition(" | mat ")
-    hb, _, mb = b.partition(" | mat ")
-    if not (a.startswith("ok ") and b.startswith("ok ")) or ha != hb:
+    if not (a.startswith("ok ") and b.startswith("ok ")):
         return False
+    sa, sb = a.split(" | "), b.split(" | ")
+    if len(sa) != 3 or len(sb) != 3 or sa[0] != sb[0]:
+        return False
+    if not _ops_eq(sa[1], sb[1]):
+        return False
+    ma, mb = sa[2][4:], sb[2][4:]
     if mb == "panic":
         return True
     return _hexeq(req, ma, mb)
@@ -67,8 +107,15 @@ SPEC = {
             "for 14 classes (unknown name, wrong #parameters, wrong #qubits, no qubits incl. digits glued to the name, no name, trailing "
             "text, unrepresentable/Unicode index, usize::MAX index, unclosed argument list, argument that cannot start, unclosed "
             "parenthesis in an argument, dangling operator) with the documented error constructor and payload; mutated renderings and "
-            "token soup.  (A) implementation vs model: error constructor + payload, width, name exactly, matrix() (width <= 4 quick / 5 "
-            "thorough) to 1e-9.  (B) width = max index + 1, name, matrix = ordered product of the documented unitaries embedded on the "
+            "token soup.  Also: the highest index placed exactly once in the first / a middle / the last part at a random position of "
+            "the qubit list; qubit lists in strictly descending order (CX 3 1, CCX 2 1 0) besides random orders; u2/u3/cu2/cu3 alone "
+            "with clearly different parameter values (a swapped phi/lambda shows in verif_ops to 1e-4 and in matrix()); object "
+            "histories: an earlier description, the current one and the earlier one again built under the SAME name while the first "
+            "objects are alive, all observed afterwards.  (A) implementation vs model: error constructor + payload, width, name "
+            "exactly, the sub-gate list of the hook Composite::verif_ops at EVERY width (names and qubit order exactly, parameters to "
+            "the 4 decimals of a description), matrix() (width <= 4 quick / 5 thorough) to 1e-9.  (B) width = max index + 1, name, "
+            "sub-gate list = the documented gates on the listed qubits in the listed ORDER with the conventional argument values "
+            "(expectedOps), matrix = ordered product of the documented unitaries embedded on the "
             "listed qubits (Spec/Unitaries + Spec/Embed over CFloat, 1e-9); malformed => exactly the expected error; never a panic.  "
             "Non-trivial = grammar-generated or malformed-by-construction; distinct = distinct request line.",
     "exhaustive": False,
@@ -81,8 +128,8 @@ def run(ctx):
         "the regex crate implements leftmost-first matching of the five anchored patterns of parse_gate_* as re-implemented by hand in "
         "Model/FromString.lean (the pattern strings, the \\d table and the case-folding table are re-extracted on every run and compared)",
         "str::split(';'), str::trim and str::to_lowercase behave as modelled (splitSemi, trim over Unicode White_Space, ASCII + Kelvin sign)",
-        "the sub-gate list of a Composite is private: it is observed through nr_affected_bits(), description() and matrix() (width <= 4/5); "
-        "for wider composites only the width is observed (hook request hook_requests/C15.md: Composite::verif_ops)",
+        "the sub-gate list is observed through the hook Composite::verif_ops (description + qubits of every sub-gate; parameters to 4 decimals) "
+        "at every width, and exactly through matrix() for width <= 4/5",
         "from_string_render_partial excludes integer literals >= 2^64 in arguments (finding C14-int-literal-overflow / C15-arg-int-literal-overflow)",
         "IEEE-754 rounding and libm are outside the model (argument values and matrices agree to 1e-9)",
         "matrix() of a composite with a sub-gate on a repeated qubit (e.g. 'CX 0 0', accepted by from_string) is outside the gate model's domain and not compared",
